@@ -553,6 +553,8 @@ pub fn c04_case(rng: &mut Rng) -> CaseOut {
     let mut out = CaseOut::default();
     let lang = &LSYM;
     // ---- left pattern
+    // companion rules applied in the same call (the statement speaks of rules, plural, applied once)
+    let multi = rng.chance(1, 2);
     let mut vars = vec![];
     let mut nb = 200;
     let lhs = loop {
@@ -649,7 +651,12 @@ pub fn c04_case(rng: &mut Rng) -> CaseOut {
         let mut names: Vec<Name> = lfree.iter().map(|s| rho[s]).collect();
         names.extend(sc.iter().map(|s| rho[s]));
         names.extend(extra.iter().copied());
-        sigma.insert(v.clone(), small_term(rng, &names));
+        let mut t = small_term(rng, &names);
+        if multi && rng.chance(2, 3) {
+            // a wrapper that a companion rule collapses in the same round: the class the variable is bound to may die before the planted match is applied
+            t = Tm::node(if rng.chance(1, 2) { "w" } else { "u" }, vec![], vec![(vec![], t)]);
+        }
+        sigma.insert(v.clone(), t);
     }
     // occurrences of a repeated variable bound to an f-term are written in alternating orientation when f is symmetric,
     // so that the instance is present only up to the symmetry of the child class
@@ -666,6 +673,22 @@ pub fn c04_case(rng: &mut Rng) -> CaseOut {
             let d = small_term(rng, &[0, 1, 2]);
             log.push(format!("add {}", d.text(lang, &pname)));
             eg.add_expr(to_rec::<LSym>(lang, &d));
+        }
+        if multi {
+            // usages of the wrapped terms / their contents, so that either side of a collapse may be the one that dies
+            for t in sigma.values() {
+                if (t.op == "w" || t.op == "u") && t.kids.len() == 1 {
+                    let inner = t.kids[0].1.clone();
+                    for _ in 0..rng.below(3) {
+                        let which = if rng.chance(1, 2) { inner.clone() } else { t.clone() };
+                        let user = Tm::node("pair", vec![], vec![(vec![], which.clone()), (vec![], Tm::leaf(if rng.chance(1, 2) { "c" } else { "d" }, vec![]))]);
+                        if user.fv().iter().all(|n| *n < BOUND) {
+                            log.push(format!("add {}", user.text(lang, &pname)));
+                            eg.add_expr(to_rec::<LSym>(lang, &user));
+                        }
+                    }
+                }
+            }
         }
         // symmetric child classes: f(a,b) = f(b,a)
         if sym_child {
@@ -725,12 +748,29 @@ pub fn c04_case(rng: &mut Rng) -> CaseOut {
         out.inc("skipped_instance_not_represented");
         return out;
     }
-    let rw = Rewrite::<LSym>::new("planted", &ltxt, &rtxt);
-    if let Err(p) = guard(|| apply_rewrites(&mut eg, &[rw])) {
+    let mut rws = vec![Rewrite::<LSym>::new("planted", &ltxt, &rtxt)];
+    if multi {
+        // slot-preserving companions (no redundancy can arise from them): collapses and a re-tagging rule
+        let comp = [("(w ?a)", "?a"), ("(u ?a)", "?a"), ("(app ?a ?b)", "(pair ?a ?b)"), ("(g $x)", "(w (g $x))")];
+        let mut names = vec!["<planted>".to_string()];
+        for (i, (l, r)) in comp.iter().enumerate() {
+            if rng.chance(2, 3) {
+                let rw = Rewrite::<LSym>::new(&format!("companion{i}"), l, r);
+                let at = rng.below(rws.len() + 1);
+                rws.insert(at, rw);
+                names.insert(at, format!("{l} => {r}"));
+            }
+        }
+        log.push(format!("rules of the call, in order: {}", names.join(" | ")));
+    }
+    if let Err(p) = guard(|| apply_rewrites(&mut eg, &rws)) {
         out.fail(Fail::panic("panic-in-apply", &p, "apply_rewrites", cj));
         return out;
     }
     out.inc("plantings_judged");
+    if multi {
+        out.inc("plantings_with_companion_rules");
+    }
     if repeated {
         out.inc("plantings_with_repeated_variable");
     }
